@@ -39,6 +39,30 @@ def relop(line):
         return None
     i, a, b = best
     return line[:i] + b + line[i+len(a):]
+NUM = re.compile(r'(?<![\w."])(\d{1,9})(?![\w."])')
+def constmut(line):
+    """the first integer literal >= 2 outside strings and comments is incremented"""
+    t = line.strip()
+    if t.startswith("//") or t.startswith("import") or "flag." in t or "log." in t or "Printf" in t or "Errorf" in t:
+        return None
+    code = line.split("//")[0]
+    # skip literals inside string literals
+    out = None
+    inq = False
+    i = 0
+    while i < len(code):
+        c = code[i]
+        if c in '"`':
+            inq = not inq
+        if not inq:
+            m = NUM.match(code, i)
+            if m and (i == 0 or not (code[i-1].isalnum() or code[i-1] in '_."')):
+                v = int(m.group(1))
+                if v >= 2:
+                    return line[:m.start(1)] + str(v + 1) + line[m.end(1):]
+                i = m.end(1); continue
+        i += 1
+    return None
 MODE = "del"
 def funcs_by_file():
     """start line of every function under contract and the properties whose evidence lists it"""
@@ -73,7 +97,7 @@ def worker(args):
         shutil.copytree("/repo", cp, ignore=shutil.ignore_patterns(".git"))
         p = os.path.join(cp, f)
         L = open(p).read().split("\n")
-        L[lineno] = "" if MODE == "del" else (negate_if(L[lineno]) if MODE == "negif" else relop(L[lineno]))
+        L[lineno] = "" if MODE == "del" else (negate_if(L[lineno]) if MODE == "negif" else (relop(L[lineno]) if MODE == "relop" else constmut(L[lineno])))
         open(p, "w").write("\n".join(L))
         b = subprocess.run(["go", "build", "-o", os.devnull, "./" + os.path.dirname(f) + "/"], cwd=cp, env=ENV, capture_output=True, text=True)
         if b.returncode != 0:
@@ -105,6 +129,8 @@ def main():
             if MODE == "negif" and negate_if(l) and not l.strip().startswith("//"):
                 jobs.append((len(jobs), f, i, l, props))
             if MODE == "relop" and relop(l):
+                jobs.append((len(jobs), f, i, l, props))
+            if MODE == "const" and constmut(l):
                 jobs.append((len(jobs), f, i, l, props))
     print(len(jobs), "candidate statements", flush=True)
     with ThreadPoolExecutor(max_workers=j) as ex:
